@@ -707,7 +707,11 @@ def design_case(draw):
             if max(col) == min(col):
                 col[0] += 1.0
             cols.append(col)
-        conf = dict(names=CONF_NAMES[:n_cf], cols=cols,
+        # confounds come in their own units (radians, mm, volts, arbitrary scanner units): an exact
+        # power-of-two factor per column; the normalised design column does not depend on it
+        units = [draw(st.sampled_from([0, 0, -40, -30, 20])) for _ in range(n_cf)]
+        cols = [[v * 2.0 ** e for v in col] for col, e in zip(cols, units)]
+        conf = dict(names=CONF_NAMES[:n_cf], cols=cols, units=units,
                     nan_at=draw(st.one_of(st.integers(0, n_cf), st.none())))
     return dict(tr=tr, n_vols=n_vols, names=names, rows=rows, alt_onsets=alt,
                 perm=draw(gen.permutation(len(rows))), target=draw(st.integers(0, n_cond - 1)),
